@@ -66,6 +66,13 @@ theorem C09_obs_spec (inp : Input) (h : WF09 inp = true) (hc : modelCompiles inp
     obs09 inp srcSlots destSlots masks fmasks = spec09 inp srcSlots destSlots masks fmasks :=
   obs09_eq_spec09 inp h hc srcSlots destSlots masks fmasks
 
+/-- C05's region WF is inside C09's: on every input of region WF of C05 (as the driver prints it) ToX and FromX run without panic
+    and compute the ideal result for every nil assignment and receiver state - no C09 clause is evaluated on the plan -/
+theorem C09_on_C05_WF (inp : Input) (h : region05 inp = "WF") (N : List String) :
+    execTo inp N = .value (idealTo inp (plan inp) (tables inp (plan inp)) N) ∧
+    ∀ recv, execFrom inp N recv = .value (idealFrom inp (plan inp) (tables inp (plan inp)) N) :=
+  C09_no_panic inp (WF09_of_region05 inp h).1 N
+
 /-- headline: the result of FromX does not depend on the receiver (nil, freshly allocated, or dirty) -/
 theorem C09_reset (inp : Input) (h : WF09 inp = true) (N : List String) (r₁ r₂ : Recv) :
     execFrom inp N r₁ = execFrom inp N r₂ := by
